@@ -24,6 +24,10 @@ inductive JVal where
   | null
   deriving DecidableEq, Repr
 
+def litTrue : Bytes := [0x74, 0x72, 0x75, 0x65]
+def litFalse : Bytes := [0x66, 0x61, 0x6c, 0x73, 0x65]
+def litNull : Bytes := [0x6e, 0x75, 0x6c, 0x6c]
+
 def isDig (c : UInt8) : Bool := 0x30 ≤ c && c ≤ 0x39
 
 def isWs (c : UInt8) : Bool := c = 0x20 || c = 0x09 || c = 0x0a || c = 0x0d
@@ -131,9 +135,9 @@ def parseValue (b : Bytes) : Option (JVal × Bytes) :=
   | [] => none
   | c :: r =>
     if c = 0x22 then (strBody .norm r).map fun p => (.str p.1, p.2)
-    else if c = 0x74 then parseLit (ascii "true") (.bool true) b
-    else if c = 0x66 then parseLit (ascii "false") (.bool false) b
-    else if c = 0x6e then parseLit (ascii "null") .null b
+    else if c = 0x74 then parseLit litTrue (.bool true) b
+    else if c = 0x66 then parseLit litFalse (.bool false) b
+    else if c = 0x6e then parseLit litNull .null b
     else parseNumber b
 
 /-- `member = string ws ":" ws value` -/
@@ -210,7 +214,7 @@ def decodesTo (v : JVal) (capture : Bytes) : Bool :=
     match decimalValue capture with
     | some (m', e') => sameValue m e m' e'
     | none => false
-  | .bool b => capture.map lower == (if b then ascii "true" else ascii "false")
+  | .bool b => capture.map lower == (if b then litTrue else litFalse)
   | .null => false
 
 /-! ### Which members a view contains -/
